@@ -196,9 +196,13 @@ MixCases == {[kind |-> kd, vs |-> xs, ety |-> MixTy, stages |-> <<[k |-> "tfilte
 \* (foldable) and consumes it, called twice; each call must enumerate the array afresh
 TwiceCons == {"collect", "part", "reduce", "reduce-sent", "sum", "prod", "band", "bor"}
 ConsTy(c) == CASE c = "collect" -> WArr(WInt) [] c = "reduce-sent" -> WMulti(<<WInt, WStr>>) [] c = "part" -> WTup(<<WArr(WInt), WArr(WInt)>>) [] OTHER -> WInt
-TwiceCases == {[kind |-> "lit", vs |-> [i \in 1..Len(xs) |-> IntV(xs[i])], ety |-> WInt, stages |-> ps, cons |-> c] :
-                 xs \in IntSeqs \ {<<>>}, ps \in {<<>>, <<[k |-> "map"]>>, <<[k |-> "filter"]>>}, c \in TwiceCons}
-Usable(c) == c.kind \in {"arr", "lit"} \/ UserOk(c.vs)
+TwicePipes == {<<>>, <<[k |-> "map"]>>, <<[k |-> "filter"]>>, <<[k |-> "tfilter", ty |-> WInt]>>,
+               <<[k |-> "map"], [k |-> "tfilter", ty |-> WInt]>>}
+\* kind "lit": the array is a literal in the function body; kind "cap": the body captures a NON-constant array
+\* of the enclosing scope (every operator of the pipeline must substitute the captured name when the closure is made)
+TwiceCases == {[kind |-> kd, vs |-> [i \in 1..Len(xs) |-> IntV(xs[i])], ety |-> WInt, stages |-> ps, cons |-> c] :
+                 kd \in {"lit", "cap"}, xs \in IntSeqs \ {<<>>}, ps \in TwicePipes, c \in TwiceCons}
+Usable(c) == c.kind \in {"arr", "lit", "cap"} \/ UserOk(c.vs)
 \* (int and bool values cannot live in one TLC set: their `v' fields are incomparable)
 CaseSeq0 == SetToSeq({c \in IntCases : Usable(c)}) \o SetToSeq(TwiceCases) \o SetToSeq({c \in BoolCases : Usable(c)})
             \o SetToSeq({c \in MixCases : Usable(c)})
@@ -206,15 +210,17 @@ CaseSeq == SelectSeq([i \in 1..Len(CaseSeq0) |-> IF i % SampleMod = 0 THEN CaseS
 N == Len(CaseSeq)
 
 Ref(c) ==
-  IF c.kind = "lit"
-  THEN LET r == Consume(c.cons, "arr", c.vs, c.stages) IN
-       [prog |-> <<FnDecl("run", <<>>, ConsTy(c.cons),
-                          <<Set("it", Pipe(c.stages, IterE(ArrE([i \in 1..Len(c.vs) |-> Lit(c.vs[i])])))),
+  IF c.kind \in {"lit", "cap"}
+  THEN LET r == Consume(c.cons, "arr", c.vs, c.stages)
+           lit == ArrE([i \in 1..Len(c.vs) |-> Lit(c.vs[i])]) IN
+       [prog |-> (IF c.kind = "cap" THEN <<Set("data", Hide(WArr(WInt), lit))>> ELSE <<>>) \o
+                 <<FnDecl("run", <<>>, ConsTy(c.cons),
+                          <<Set("it", Pipe(c.stages, IterE(IF c.kind = "cap" THEN V("data") ELSE lit))),
                             Ret(r.prog[1])>>),
                    TupE(<<CallE(V("run"), <<>>), CallE(V("run"), <<>>)>>)>>,
         v |-> TupV(<<r.v, r.v>>), log |-> r.log \o r.log]
   ELSE Consume(c.cons, c.kind, c.vs, c.stages)
-Prog(c) == IF c.kind = "lit" THEN Prelude \o Ref(c).prog
+Prog(c) == IF c.kind \in {"lit", "cap"} THEN Prelude \o Ref(c).prog
            ELSE Prelude \o SrcStmts(c.kind, c.vs, c.ety) \o <<Set("it", Pipe(c.stages, V("it0")))>> \o Ref(c).prog
 Fuel == 3000
 Out(i) == Outcome(Run(Prog(CaseSeq[i]), Fuel))
